@@ -100,11 +100,11 @@ Qed.
 (* |insertWordBreaks:n on a value whose String() is s (whatever further arguments follow the first) *)
 Theorem insert_word_breaks_matches_source (v : value) (st_string : value -> option bstr) (s : bstr) (n : Z) (more : list value) :
   st_string v = Some s -> st_small (go_len s) ->
-  src_soyhtml_directiveInsertWordBreaks value VStr st_as_int_v st_string st_dec tmpl_html_escape v (VInt n :: more) =
+  st_V src_soyhtml_directiveInsertWordBreaks_V st_string st_dec tmpl_html_escape v (VInt n :: more) =
   Some (VStr (insert_word_breaks s n)).
 Proof.
   intros Hv Hs. assert (Hs' := Hs). unfold st_small in Hs'.
-  unfold src_soyhtml_directiveInsertWordBreaks. rewrite Hv. cbn [go_bind]. rewrite go_index_0. cbn [go_bind st_as_int_v]. cbv zeta.
+  unfold src_soyhtml_directiveInsertWordBreaks_V, src_soyhtml_directiveInsertWordBreaks. rewrite Hv. cbn [go_bind]. rewrite go_index_0. cbn [go_bind st_as_int_v]. cbv zeta.
   rewrite st_wrap64 by lia.
   destruct (iwb_loop_matches s n Hs (length s) 0 0%Z [] 0%Z (Z.to_nat (go_len s + 1))) as (c' & w' & Hl);
     try (unfold go_len; lia).
@@ -121,6 +121,6 @@ Proof. reflexivity. Qed.
 
 Theorem change_newline_to_br_matches_source (v : value) (st_string : value -> option bstr) (s : bstr) (args : list value) :
   st_string v = Some s ->
-  src_soyhtml_directiveChangeNewlineToBr value VStr st_string tmpl_html_escape (st_re nl2br br) v args =
+  st_V src_soyhtml_directiveChangeNewlineToBr_V st_string tmpl_html_escape (st_re nl2br br) v args =
   Some (VStr (change_newline_to_br s)).
-Proof. intros Hv. unfold src_soyhtml_directiveChangeNewlineToBr. rewrite Hv. reflexivity. Qed.
+Proof. intros Hv. unfold src_soyhtml_directiveChangeNewlineToBr_V, src_soyhtml_directiveChangeNewlineToBr. rewrite Hv. reflexivity. Qed.
